@@ -992,6 +992,16 @@ def c08_programs(tier, sd):
         [["unique", [x1, x2, F("l", 0, "x"), F("l", 1, "x")]]],
         [E(["in", F("a"), [x1, x2, ["rng", F("l", 0, "inner", "p"), F("l", 1, "inner", "p")]]])],
     ]
+    out += [dict(p, tag="tree_nested_foreach") for p in _more_c04(tier) if p["tag"] == "obj_list:nested_foreach"]
+    # switching a block of one sub-object off must not reach structurally identical sub-objects, including ones built later
+    TopC = {"name": "Top", "fields": [fld("a", ("u", 8)), ["s1", "obj", "Sub", True], ["s2", "obj", "Sub", True], ["l", "list", ["obj", "Sub"], 2, True, False]],
+            "blocks": [["tb", "c", [E(["<", x1, x2])]]]}
+    prc = {"enums": {}, "classes": [Leaf, Sub, TopC]}
+    out.append({"tag": "tree_cmode", "desc": "block of one sub-object switched off; siblings, list elements and later instances keep theirs", "prog": prc,
+                "world": [["top", "obj", "Top"]],
+                "ops": [["cmode", ["top", "s1"], "sb", False], ["randomize", ["top"]], ["list_append", ["top", "l"], 0], ["new", ["t2", "obj", "Top"]],
+                        ["randomize", ["top"]], ["randomize", ["t2"]], ["cmode", ["top", "l", 0], "sb", False], ["cmode", ["top", "s1", "inner"], "lb", False],
+                        ["list_append", ["top", "l"], 0], ["new", ["t3", "obj", "Top"]], ["randomize", ["top"]], ["randomize", ["t3"]], ["randomize", ["t2"]]]})
     for r1, r2, rl in itertools.product((True, False), (True, False), (True, False)):
         if tier == "quick" and (r1, r2, rl) in ((False, False, True), (False, True, False)):
             continue
@@ -1069,6 +1079,11 @@ def c14_programs(tier, sd):
         [E(["<", ["ps", a, 7, 4], ["ulit", 3, 4]])],
         [],
     ]
+    for lo1, hi1, lo2, hi2 in ((2, 4, 8, 12), (0, 0, 5, 9), (10, 20, 22, 22)):
+        rngs = [["rng", lit(lo1), lit(hi1)], ["rng", lit(lo2), lit(hi2)]]
+        for op in rel[:4]:
+            for bnd in sorted({lo1, hi1, lo2, hi2, hi1 + 1, lo2 - 1, lo1 - 1 if lo1 > 0 else 0, hi2 + 1}):
+                stmts.append([E(["in", a, rngs]), E([op, a, lit(bnd)])])
     prev = [{}, {"a": 0, "b": 255, "c": -128}, {"a": 255, "b": 0, "c": 127}, {"a": 77, "b": 77, "c": -1}]
     t = types_of(fields)
     for st in stmts:
@@ -1084,6 +1099,13 @@ def c14_programs(tier, sd):
             ops.append(["randomize", ["top"]])
         ops.append(["randomize_with", ["top"], [E(["<", a, lit(128)])]])
         out.append({"tag": "bounds", "desc": "bounds %s" % (st,), "prog": pr, "world": [["top", "obj", "Top"]], "ops": ops})
+    # free-standing fields declared with non-rand types are random when passed to vsc.randomize(...)
+    w = [["f0", "u", 3, False], ["f1", "s", 4, False], ["f2", "u", 3, True]]
+    for cl in ([["vsc_randomize", [["f0"]]], ["vsc_randomize", [["f0"], ["f1"], ["f2"]]],
+                ["vsc_randomize_with", [["f0"], ["f2"]], [E(["<", F("f0"), F("f2")]), E(["<=", F("f2"), lit(6)])]],
+                ["vsc_randomize_with", [["f1"]], [E(["!=", F("f1"), lit(0)])]]]):
+        out.append({"tag": "bounds_standalone", "desc": "standalone non-rand-typed fields %s" % (cl,), "prog": {"enums": {}, "classes": []}, "world": w,
+                    "ops": [["set", ["f0"], 5], ["set", ["f1"], -3], ["set", ["f2"], 2], cl, cl, ["set", ["f0"], 0], cl]})
     # disabled blocks must not narrow; enum fields
     pr = one_class(fields, [E(["<", a, lit(5)])], extra_blocks=[["cb1", "c", [E([">", b, lit(250)]), E(["<", c, lit(0)])]]])
     out.append({"tag": "bounds_cmode", "desc": "disabled block does not narrow", "prog": pr, "world": [["top", "obj", "Top"]],
@@ -1312,6 +1334,7 @@ def c04_programs(tier, sd):
         out.append({"tag": "obj_list", "desc": "object list %s" % (body,), "prog": {"enums": {}, "classes": [Item, Top]}, "world": [["top", "obj", "Top"]],
                     "ops": [["randomize", ["top"]], ["list_append", ["top", "items"], 0], ["randomize", ["top"]], ["randomize_with", ["top"], [E(["<", F("a"), lit(9)])]]]})
     uv = [["p", "list", ["u", 2], 2, True, False], ["q", "list", ["u", 2], 2, True, False], ["r", "list", ["u", 2], 2, True, False]]
+    out += _more_c04(tier)
     out.append({"tag": "unique_vec", "desc": "unique_vec over three 2-element lists", "prog": one_class(uv, [["unique_vec", [["p"], ["q"], ["r"]]]]),
                 "world": [["top", "obj", "Top"]], "ops": [["randomize", ["top"]], ["randomize", ["top"]]]})
     return out
@@ -1350,4 +1373,29 @@ def c15_programs(tier, sd):
     lf = [["l", "list", ["u", 8], 3, True, False]]
     pr = one_class(lf, [["foreach", ["l"], "i", [["dist", ["it", "i"], [[lit(1), 1], [lit(5), 0], [["rng", lit(10), lit(12)], 2]]]]]])
     out.append({"tag": "dist_list", "desc": "dist on list elements", "prog": pr, "world": [["top", "obj", "Top"]], "ops": [["randomize", ["top"]], ["randomize", ["top"]]]})
+    return out
+
+
+def _more_c04(tier):
+    """random-size lists of objects; nested foreach through objects with inner lists of different lengths"""
+    out = []
+    Item = {"name": "Item", "fields": [fld("x", ("u", 8)), fld("y", ("u", 8)), ["arr", "list", ["u", 4], 2, True, False]],
+            "blocks": [["ib", "c", [E(["<", F("x"), F("y")])]]], "pre_randomize": [], "post_randomize": []}
+    for n1, n2, b1, b2 in ((3, 2, 8, 8), (2, 3, 8, 2), (4, 1, 3, 8)):
+        Top = {"name": "Top", "fields": [["p", "list", ["obj", "Item"], n1, True, True], ["q", "list", ["obj", "Item"], n2, True, True], fld("a", ("u", 8))],
+               "blocks": [["tb", "c", [E(["<=", ["size", ["p"]], lit(b1)]), E(["<=", ["size", ["q"]], lit(b2)]), E([">", ["size", ["q"]], lit(0)]),
+                                       ["foreach", ["p"], "i", [E(["<", ["it", "i", "x"], lit(50)])]],
+                                       ["foreach", ["q"], "i", [E([">", ["it", "i", "y"], lit(100)])]]]]]}
+        out.append({"tag": "randsz_obj:two_lists", "desc": "two random-size object lists (%d,%d objects; size bounds %d,%d)" % (n1, n2, b1, b2),
+                    "prog": {"enums": {}, "classes": [Item, Top]}, "world": [["top", "obj", "Top"]],
+                    "ops": [["randomize", ["top"]], ["randomize", ["top"]], ["randomize_with", ["top"], [E([">=", ["size", ["p"]], lit(1)])]], ["randomize", ["top"]]]})
+    # nested foreach: inner lists of different lengths
+    Top = {"name": "Top", "fields": [["items", "list", ["obj", "Item"], 3, True, False], fld("a", ("u", 8))],
+           "blocks": [["tb", "c", [["foreach", ["items"], "i", [["foreach", [["itv", "i"], "arr"], "j", [E(["<", ["it", "j"], lit(9)]), E(["!=", ["it", "j"], ["idx", "i"]])]]]]]]]}
+    out.append({"tag": "obj_list:nested_foreach", "desc": "nested foreach, inner lists of lengths 2,4,3", "prog": {"enums": {}, "classes": [Item, Top]},
+                "world": [["top", "obj", "Top"]],
+                "ops": [["randomize", ["top"]], ["list_append", ["top", "items", 1, "arr"], 0], ["list_append", ["top", "items", 1, "arr"], 0],
+                        ["list_append", ["top", "items", 2, "arr"], 0], ["randomize", ["top"]], ["list_clear", ["top", "items", 0, "arr"]], ["randomize", ["top"]],
+                        ["list_append", ["top", "items", 0, "arr"], 0], ["list_append", ["top", "items", 0, "arr"], 0], ["list_append", ["top", "items", 0, "arr"], 0],
+                        ["list_append", ["top", "items", 0, "arr"], 0], ["list_append", ["top", "items", 0, "arr"], 0], ["randomize", ["top"]]]})
     return out
